@@ -14,10 +14,11 @@ theorem ZipOK_congr {st st' : St S M} (hf : st'.focus = st.focus) (hu : st'.up =
 
 /-- renumbering the focus from its children (or from its value) keeps the state sound, unless the
 focus is a solved node without children -/
-theorem renumber_ok (hsb : SmallBranching G) (st : St S M) (cur : S) (hs : List S)
+theorem renumber_ok (hsb : SmallFrom G root) (st : St S M) (cur : S) (hs : List S)
     (hz : ZipOK G att root st) (hst : st.stack = cur :: hs)
     (hno : (st.focus.children.isEmpty && (st.focus.phi == 0 || st.focus.delta == 0)) = false) :
     ZipOK G att root { st with focus := setNumbers G cur st.focus } := by
+  have hreach := ZipOK.reach G att root hz hst
   obtain ⟨s, hs0, hst0, ht, hc⟩ := hz
   rw [hst] at hst0
   injection hst0 with e1 e2
@@ -30,7 +31,7 @@ theorem renumber_ok (hsb : SmallBranching G) (st : St S M) (cur : S) (hs : List 
     refine ⟨?_, ?_, ?_, hnil⟩
     · cases hx : st.focus.expanded with
       | false =>
-        exact setNumbers_leaf_ok G att hsb hx hnum.valueP hnum.valueD hnum.valueU hnum.side
+        exact setNumbers_leaf_ok G att (hsb cur hreach) hx hnum.valueP hnum.valueD hnum.valueU hnum.side
       | true =>
         have hover : G.over cur = none := by
           rcases hnum.live with h | ⟨h, _⟩
@@ -115,7 +116,7 @@ theorem solvedUpdate_spec (isRoot : Bool) (cfg : PN.Cfg) (stats stats' : Stats) 
 
 
 /-- one round of `updateAncestors` -/
-theorem updateStep_ok (hsb : SmallBranching G) (base : Nat) (st st1 : St S M) (b : Bool)
+theorem updateStep_ok (hsb : SmallFrom G root) (base : Nat) (st st1 : St S M) (b : Bool)
     (hz : ZipOK G att root st) (h : updateStep G base st = .ok (b, st1)) (han : st1.anomaly = false) :
     ZipOK G att root st1 ∧ st.anomaly = false := by
   unfold updateStep at h
@@ -214,7 +215,7 @@ theorem updateAncestors_mono (base : Nat) : ∀ (fuel : Nat) (st st' : St S M),
         have h1 : st1.anomaly = false := by rw [← (ascend_same st1 st2 hasc).2.2.2]; exact h2
         exact updateStep_mono G base st st1 true hstep h1
 
-theorem updateAncestors_ok (hsb : SmallBranching G) (base : Nat) : ∀ (fuel : Nat) (st st' : St S M),
+theorem updateAncestors_ok (hsb : SmallFrom G root) (base : Nat) : ∀ (fuel : Nat) (st st' : St S M),
     ZipOK G att root st → updateAncestors G base fuel st = .ok st' → st'.anomaly = false →
     ZipOK G att root st' := by
   intro fuel
